@@ -30,7 +30,7 @@ def warm() -> None:
             try:
                 args, outs, _ref = make_args(sc)
                 getattr(K, k)(*args)
-            except Rejected:
+            except (Rejected, AttributeError, TypeError):
                 pass
     numba.set_num_threads(1)
 
@@ -312,7 +312,10 @@ def execute(sc, ctx) -> None:
     import sigpyproc.core.kernels as K
 
     k = sc["kernel"]
-    disp = getattr(K, k)
+    disp = getattr(K, k, None)
+    if disp is None or not hasattr(disp, "py_func"):
+        ctx.observations[f"kernel-not-found:{k}"] += 1
+        raise Rejected(f"kernels.{k} does not exist in this tree")
     info = {"api": k, "mode": sc["mode"], "shape": sc["shape"], "dtype": sc.get("dtype")}
 
     def mk(clause, detail=""):
